@@ -113,6 +113,8 @@ func Classify(msg string) string {
 		return "panic:" + strings.TrimPrefix(msg, "PANIC:")
 	case msg == "must not be null", msg == "the requested element is null which the schema does not allow":
 		return "nonnull"
+	case msg == "unexpected type <nil> from directive, should be graphql.Marshaler":
+		return "directive-nil"
 	case msg == "cannot marshal infinite no NaN float values":
 		return "nonfinite"
 	}
@@ -180,6 +182,17 @@ func (s *Server) Run(ctx context.Context, run *univ.Run, query, opName string, v
 	done := make(chan struct{})
 	go func() {
 		defer close(done)
+		// what every transport does around the response function (handler.Server.ServeHTTP, the
+		// websocket operation goroutine): a panic that no field recovered - an operation directive's -
+		// goes through the recover hook and the presenter and is answered as the only error
+		defer func() {
+			if r := recover(); r != nil {
+				gqlErr, _ := s.Exec.PresentRecoveredError(ctx, r).(*gqlerror.Error)
+				// (graphql.Response always serialises its data member: null here)
+				resp := &graphql.Response{Errors: gqlerror.List{gqlErr}, Data: json.RawMessage("null")}
+				out.Payloads = append(out.Payloads, PayloadOf(resp))
+			}
+		}()
 		responses, rctx := s.Exec.DispatchOperation(ctx, opCtx)
 		for i := 0; i < 10000; i++ {
 			resp := responses(rctx)
